@@ -5,7 +5,7 @@ CONSTANTS
   DH = 10
   PTC = {0, 505, 1005, 304, 510}
   KINDS = {"soft", "hard", "term", "fixed", "fterm"}
-  NITS = {101, 150, 250}
+  NITS = {100, 101, 150, 250}
   NK = 12
   COSTS = {0}
   EMIT = TRUE
